@@ -73,7 +73,7 @@ def shards(tier):
     out += [("main", s) for s in seq_shards(SIGMA_MAIN, n, min_len=n)]
     # deeper over words and the main separators only: up to 4 (quick) / 5 (thorough) words in every case pattern
     out += [("words", s) for s in seq_shards(SIGMA_WORDS, 7 if tier == "quick" else 8, min_len=6 if tier == "quick" else 7, prefix_len=3)]
-    out += [("mw", 0), ("mw", 1), ("leak", 0)]
+    out += [("mw", 0), ("mw", 1), ("mw", 2), ("leak", 0)]
     out += [("ball", b, k, st, n) for (_, b, k, st, n) in spaces.ball_shards(len(BASES), 2 if tier == "quick" else 3)]
     return out
 
@@ -287,6 +287,35 @@ def check_middleware(which, acc):
                                 {"oracle": "error_block_retains_entry"},
                                 {"case": case, "observed": repr(inner)[:300], "expected": "the original entry (type, key, raw, line, field keys, non-name fields, failing field untouched)"},
                             )
+    elif which == 2:
+        import itertools
+
+        names = {"author": ["Ludwig van Beethoven", "AA bb CC"], "editor": ["de la Fontaine, Jr, Jean"], "translator": ["{cc} DD"]}
+        for order in itertools.permutations(["author", "editor", "translator", "title"]):
+            for inplace in (True, False):
+                fields = [Field(k, list(names[k]) if k in names else "T") for k in order]
+                e = Entry("book", "b", fields)
+                case = {"middleware": "field order", "order": list(order), "inplace": inplace}
+                acc.trace()
+                acc.case(nontrivial_key=("order", order, inplace))
+                try:
+                    out = SplitNameParts(allow_inplace_modification=inplace).transform(Library([e])).blocks[0]
+                except Exception as ex:
+                    acc.violation({"oracle": "error_block_not_exception", "exception": type(ex).__name__}, {"case": case, "observed": repr(ex), "expected": "an entry"})
+                    continue
+                for f in getattr(out, "fields", []):
+                    if f.key in names:
+                        exp = [NameParts(**R.name_parts(n)) for n in names[f.key]]
+                        if f.value != exp:
+                            acc.violation(
+                                {"oracle": "each_name_field_gets_its_own_parts", "field": f.key},
+                                {"case": case, "observed": repr(f.value)[:300], "expected": repr(exp)[:300]},
+                            )
+                            break
+                    elif f.value != "T":
+                        acc.violation({"oracle": "each_name_field_gets_its_own_parts", "field": f.key}, {"case": case, "observed": repr(f.value), "expected": "T"})
+                if [f.key for f in getattr(out, "fields", [])] != list(order):
+                    acc.violation({"oracle": "each_name_field_gets_its_own_parts", "field": "order"}, {"case": case, "observed": repr(out)[:200], "expected": list(order)})
     else:
         # through parse_string with the middlewares appended (too many commas / trailing comma can be written in a braced field)
         for bad in ["AA, BB, CC, DD", "AA,", "AA, bb,"]:
